@@ -38,7 +38,10 @@ pub fn aigify(gate: &GateModule) -> AigModule {
         let edge = match gate.nets[net as usize].driver {
             NetDriver::Const(false) => AigEdge::CONST0,
             NetDriver::Const(true) => AigEdge::CONST1,
-            NetDriver::PortInput | NetDriver::FfQ(_) | NetDriver::Undriven => {
+            NetDriver::PortInput
+            | NetDriver::FfQ(_)
+            | NetDriver::RamRead(..)
+            | NetDriver::Undriven => {
                 // Treat any non-combinational driver as a primary input
                 // for the AIG. The caller wires the same NetId back when
                 // re-emitting cells.
@@ -148,6 +151,16 @@ pub fn aigify(gate: &GateModule) -> AigModule {
         // the FF index by position.
         aig.add_sink(ff.d, edge);
     }
+    // RAM macro pins (clock, write addr/data/enable/mask, read addr) consume
+    // combinational logic just like an FF D pin; without a sink their cones
+    // would be dropped by the round-trip. Same visiting order as
+    // `for_each_ram_input_net_mut`, which re-attaches them.
+    let mut ram_inputs: Vec<NetId> = Vec::new();
+    gate.for_each_ram_input_net(|n| ram_inputs.push(n));
+    for net in ram_inputs {
+        let edge = lower_net(&mut aig, gate, net);
+        aig.add_sink(net, edge);
+    }
 
     aig
 }
@@ -163,6 +176,7 @@ pub fn aig_to_cells(aig: &AigModule, original: &GateModule) -> GateModule {
         nets: Vec::new(),
         cells: Vec::new(),
         ffs: original.ffs.clone(),
+        ram_blocks: original.ram_blocks.clone(),
     };
 
     // Preserve the original net table layout so port / FF references
@@ -175,6 +189,7 @@ pub fn aig_to_cells(aig: &AigModule, original: &GateModule) -> GateModule {
                 NetDriver::Const(b) => NetDriver::Const(b),
                 NetDriver::PortInput => NetDriver::PortInput,
                 NetDriver::FfQ(idx) => NetDriver::FfQ(idx),
+                NetDriver::RamRead(r, p, b) => NetDriver::RamRead(r, p, b),
                 _ => NetDriver::Undriven,
             },
             origin: n.origin,
@@ -278,8 +293,15 @@ pub fn aig_to_cells(aig: &AigModule, original: &GateModule) -> GateModule {
         .map(|p| p.nets.len())
         .sum();
 
+    let ff_count = out.ffs.len();
+    let mut ram_pin_nets: Vec<NetId> = Vec::new();
     for (i, sink) in aig.sinks.iter().enumerate() {
         let src_net = resolve_fanin(&mut out, &mut pos_net, &mut neg_net, sink.edge);
+        if i >= port_out_count + ff_count {
+            // RAM macro pin, re-attached below in visiting order.
+            ram_pin_nets.push(src_net);
+            continue;
+        }
         if i < port_out_count {
             let target = sink.target;
             if src_net != target {
@@ -299,6 +321,12 @@ pub fn aig_to_cells(aig: &AigModule, original: &GateModule) -> GateModule {
             out.ffs[ff_idx].d = src_net;
         }
     }
+    let mut pins = ram_pin_nets.into_iter();
+    out.for_each_ram_input_net_mut(|n| {
+        if let Some(src) = pins.next() {
+            *n = src;
+        }
+    });
 
     out
 }
